@@ -213,6 +213,11 @@ func genScenario(r *rng, k int, tier string) *scenario {
 			}
 			add(fmt.Sprintf("add %d", added))
 			live[added] = true
+			if a := sc.bars[added].after; a >= 0 && !sc.pop && r.chance(1, 2) {
+				// the predecessor moves after the successor was queued: the successor must take over the
+				// position the predecessor has when it hands over, not the one it had at queueing time
+				add(fmt.Sprintf("prio %d %d 0", a, 20+r.intn(10)))
+			}
 			added++
 			continue
 		}
